@@ -21,6 +21,11 @@ except BaseException as E:
     cKDTree = ExceptionWrapper(E)
 
 
+# a triangle whose squared sine between two edges is below a few ulp has
+# no area that float64 can distinguish from zero, whatever its size
+_SIN_SQ_ZERO = 16 * np.finfo(np.float64).eps
+
+
 def nearby_faces(mesh, points):
     """
     For each point find nearby faces relatively quickly.
@@ -167,9 +172,26 @@ def closest_point(mesh, points):
     query_vector = query_point - query_close
     query_distance = util.diagonal_dot(query_vector, query_vector)
 
-    # get best two candidate indices by arg-sorting the per-query_distances
+    # faces with no area (repeated vertex index, collinear or coincident
+    # vertices) have no normal and can only repeat a point of the faces
+    # next to them, so they are ranked after every face that has an area
+    edges = query_tri[:, 1:] - query_tri[:, :1]
+    cross = np.cross(edges[:, 0], edges[:, 1])
+    lengths = util.diagonal_dot(edges[:, 0], edges[:, 0]) * util.diagonal_dot(
+        edges[:, 1], edges[:, 1]
+    )
+    degenerate = util.diagonal_dot(cross, cross) <= _SIN_SQ_ZERO * lengths
+
+    # get best two candidate indices by sorting the per-query distances,
+    # lexsort puts NaN distances last within the two groups
     qds = np.array_split(query_distance, query_group)
-    idxs = np.int32([qd.argsort()[:2] if len(qd) > 1 else [0, 0] for qd in qds])
+    dgs = np.array_split(degenerate, query_group)
+    idxs = np.int32(
+        [
+            np.lexsort((qd, dg))[:2] if len(qd) > 1 else [0, 0]
+            for qd, dg in zip(qds, dgs)
+        ]
+    )
     idxs[1:] += query_group.reshape(-1, 1)
 
     # points, distances and triangle ids for best two candidates
